@@ -368,6 +368,16 @@ pub struct DefPlan {
 pub fn def_text_of(p: &DefPlan) -> String {
     if p.hoist > 0 {
         if let Some(t) = print_definition_hoisted(&p.top, p.hoist) {
+            // every other definition: declarations of the three other kinds under the same name around the hoisted one (each kind
+            // has a name space of its own; the reference has to find the declaration of its kind)
+            if p.idx % 2 == 0 {
+                let decoys = ["", "enum Hoisted { \"DECOY_E\" = 1 };\n", "struct Hoisted { uint; };\n", "taggedstruct Hoisted { \"DECOY_TS\"; };\n", "taggedunion Hoisted { \"DECOY_TU\" uint; };\n"];
+                let before: String = (1..5).filter(|k| *k != p.hoist && k % 2 == 1).map(|k| decoys[k]).collect();
+                let after: String = (1..5).filter(|k| *k != p.hoist && k % 2 == 0).map(|k| decoys[k]).collect();
+                if let Some(pos) = t.find(";\nblock \"IF_DATA\"") {
+                    return format!("{before}{}{after}{}", &t[..pos + 2], &t[pos + 2..]);
+                }
+            }
             return t;
         }
     }
